@@ -191,7 +191,7 @@ Ref(a) ==
       LET r == Ref(a.in) IN
       IF r.refuse # "none" THEN r
       ELSE
-      CASE a.op = "map" ->
+      CASE a.op \in {"map", "pmap"} ->     \* pmap: map(fn, num_workers=w, buffer_size=bs)
              RefRec([j \in 1..Len(r.el) |->
                        IF r.el[j].ok THEN ElOk(r.el[j].k, ApplyFn(a.f, r.el[j].v))
                        ELSE r.el[j]], r.tail, r.kcap)
